@@ -1,5 +1,6 @@
 """C12: no batch of queries makes CompassApp::run panic, abort or run without bound; every query is answered
 with a response echoing its request; an error is local to its query."""
+import json
 import os
 from lib import vf
 
@@ -59,6 +60,29 @@ def classify(case, i, m, s):
     return None
 
 
+def harness_died(chk, r, stream):
+    """The harness runs every application call under catch_unwind + watchdog and guards every case, so it only ends
+    abnormally when the PROCESS is killed (abort, stack overflow, out of memory). It writes the case it is about to
+    run to <stream>.current.json: that case is then the concrete failing input."""
+    died = [e for e in r.errors if e.get("file") == "harness"]
+    if not died:
+        return
+    marker = os.path.join(r.dir, stream + ".current.json")
+    tail = " ".join(died[0].get("error", "").split())[-600:]
+    try:
+        case = json.load(open(marker))
+    except Exception:  # noqa
+        case = None
+    r.errors = [e for e in r.errors if e.get("file") != "harness"]
+    if case is not None:
+        chk.violation("impl-counterexample", stream, case, "the harness process died while this case was running "
+                      "(abort / stack overflow / out of memory inside the application call): " + tail,
+                      "the call returns", detail="process-level failure: not catchable by catch_unwind")
+    else:
+        chk.violation("broken-correspondence", stream, {"stream": stream}, "the harness process ended abnormally outside "
+                      "any case: " + tail, "the harness completes", found=False, key="harness-" + stream)
+
+
 def run(chk):
     chk.coverage["trusted_base"] = [
         "Coq 8.16.1 kernel + vm_compute",
@@ -80,9 +104,10 @@ def run(chk):
     chk.proofs(extra_targets=["Model/PipelineRun.vo"], extra_props=["Props/Links2.v"])
     binp = vf.build_harness("c12")
     thorough = chk.tier != "quick"
-    n = 10000 if thorough else 2000
+    n = 10000 if thorough else 2500
     extra = ["--corpus", CORPUS]
     r = vf.run_stream(binp, "batch", n, chk.seed, os.path.join(chk.outdir, "batch"), extra=extra, replay=chk.replay)
+    harness_died(chk, r, "batch")
     chk.add_stream(r, RULE)
     vf.compare(chk, r, classify=classify, binpath=binp, extra=extra)
     for fid in sorted(PENDING):
@@ -96,6 +121,7 @@ def run(chk):
         binw = vf.build_harness("c12", profile="wrap")
         extra_w = ["--corpus", CORPUS, "--wrap", "--boundary-only"]
         rw = vf.run_stream(binw, "batch_wrap", 0, chk.seed, os.path.join(chk.outdir, "batch_wrap"), extra=extra_w)
+        harness_died(chk, rw, "batch_wrap")
         chk.add_stream(rw, "the corpus and the deterministic families of stream batch on the `wrap` build profile "
                            "(overflow-checks off)")
         vf.compare(chk, rw, classify=classify, binpath=binw, extra=extra_w)
